@@ -2,6 +2,7 @@ package main
 
 import (
 	"fmt"
+	"go/types"
 	"sort"
 	"strconv"
 	"strings"
@@ -25,7 +26,7 @@ func (c *Ctx) reuseRun() map[string]*simpleVerdict {
 	if reuseMemo != nil {
 		return reuseMemo
 	}
-	res := map[string]*simpleVerdict{"parser": {}, "calculator": {}, "template": {}, "calculator-real": {}}
+	res := map[string]*simpleVerdict{"parser": {}, "calculator": {}, "template": {}, "calculator-real": {}, "calculator-histories": {}}
 	note := func(k, bad, undec string) {
 		v := res[k]
 		v.runs++
@@ -51,7 +52,7 @@ func (c *Ctx) reuseRun() map[string]*simpleVerdict {
 				names, _ := stringsOfSlice(vn)
 				return "program [" + strings.Join(r.rpn, " ") + "] variables " + fmt.Sprint(names)
 			case "reject":
-				return "error " + r.code
+				return "error " + r.code + ", then " + c.reuseObservable(h.m, resultType(c.MustFunc(pkgParsers, "", "NewExpressionParser")), h.parser)
 			}
 			return r.kind + ": " + r.why
 		}
@@ -90,17 +91,12 @@ func (c *Ctx) reuseRun() map[string]*simpleVerdict {
 			if out.kind != "ok" {
 				return out.kind + ": " + out.why
 			}
+			// what the instance shows through its accessors is compared after a rejected text as well: a fresh
+			// instance given the malformed text is the reference for everything observable afterwards
 			if _, isNil := r.(mNilT); !isNil {
-				return "error " + errorCode(r)
+				return "error " + errorCode(r) + ", then " + c.reuseObservable(m, pt, parser)
 			}
-			vn, _ := callM(c, m, pt, "VariableNames", parser)
-			names, _ := stringsOfSlice(vn)
-			rt, _ := callM(c, m, pt, "ResultTokens", parser)
-			n := 0
-			if sl, ok := rt.(mSlice); ok {
-				n = len(sl.arr)
-			}
-			return fmt.Sprintf("program of %d tokens, variables %v", n, names)
+			return "no error, then " + c.reuseObservable(m, pt, parser)
 		}
 		fresh := map[string]string{}
 		for _, s := range pool {
@@ -182,6 +178,19 @@ func (c *Ctx) reuseRun() map[string]*simpleVerdict {
 			c.reuseRealCalculator(part, func(bad, undec string) {
 				mu.Lock()
 				note("calculator-real", bad, undec)
+				mu.Unlock()
+			})
+		}()
+	}
+	// ---- calculator as shipped: histories of expressions and assignments by the caller ---------------
+	for part := 0; part < reuseHistoryParts; part++ {
+		part := part
+		wg.Add(1)
+		go func() {
+			defer wg.Done()
+			c.reuseHistories(part, func(bad, undec string) {
+				mu.Lock()
+				note("calculator-histories", bad, undec)
 				mu.Unlock()
 			})
 		}()
@@ -298,6 +307,55 @@ func (c *Ctx) reuseRun() map[string]*simpleVerdict {
 	wg.Wait()
 	reuseMemo = res
 	return res
+}
+
+// reuseObservable: what a parser or calculator shows through its exported accessors - the expression
+// text, the number of original tokens, the types of the initial tokens and of the compiled program, the
+// variable names (where the type has the accessor).
+func (c *Ctx) reuseObservable(m *mach, t types.Type, recv mv) string {
+	etNames := c.constNames(pkgParsers, "")
+	tokType := c.MustFunc(pkgParsers, "ExpressionToken", "Type")
+	var parts []string
+	for _, acc := range []string{"Expression", "OriginalTokens", "InitialTokens", "ResultTokens", "VariableNames"} {
+		if c.lookupMethod(t, acc) == nil {
+			continue
+		}
+		v, out := callM(c, m, t, acc, recv)
+		if out.kind != "ok" {
+			return out.kind + ": " + acc + ": " + out.why
+		}
+		switch acc {
+		case "Expression":
+			s, ok := v.(string)
+			if !ok {
+				return "opaque: Expression() is undetermined"
+			}
+			parts = append(parts, fmt.Sprintf("Expression() %q", s))
+		case "OriginalTokens":
+			n := 0
+			if sl, ok := v.(mSlice); ok {
+				n = len(sl.arr)
+			}
+			parts = append(parts, fmt.Sprintf("%d original tokens", n))
+		case "VariableNames":
+			names, _ := stringsOfSlice(v)
+			parts = append(parts, "VariableNames() "+fmt.Sprint(names))
+		default:
+			var ts []string
+			if sl, ok := v.(mSlice); ok {
+				for _, tk := range sl.arr {
+					ty, o := m.Call(tokType, tk)
+					tn, ok := ty.(int64)
+					if o.kind != "ok" || !ok {
+						return "opaque: a token of " + acc + "() has an undetermined type"
+					}
+					ts = append(ts, etNames[tn])
+				}
+			}
+			parts = append(parts, acc+"() ["+strings.Join(ts, " ")+"]")
+		}
+	}
+	return strings.Join(parts, ", ")
 }
 
 // ---- the calculator as shipped: default functions, type-unsafe operations, default variables ----------
@@ -464,6 +522,217 @@ func (c *Ctx) reuseRealCalculator(part int, note func(bad, undec string)) {
 	}
 }
 
+// ---- histories on one calculator as shipped -----------------------------------------------------------
+//
+// One calculator (automatic variables on, as constructed) is given three expression texts one after the
+// other - well-formed ones with and without the variable x, malformed ones - and at one point of the
+// history the caller stores 7 in the default variable x (Locate("x").SetValue, or FindByName("x").SetValue
+// when the collection already has the entry). After every SetExpression, and after a closing
+// SetExpression("x + 1"), everything the instance shows - the outcome of SetExpression, the accessors
+// (expression, tokens, program) and the outcome of Evaluate - must equal what a freshly constructed
+// calculator shows for that text alone under the same variable values: x = 7 if the caller stored it by
+// then, and a null entry for every other identifier of the well-formed expressions set so far (C18:
+// entries and values already there are kept).
+
+const reuseHistoryParts = 2
+
+func (c *Ctx) reuseHistories(part int, note func(bad, undec string)) {
+	m := newMach(c)
+	m.maxSteps = 3000000
+	m.external = decimalNumerals
+	cctor := c.MustFunc(pkgCalc, "", "NewExpressionCalculator")
+	ct := resultType(cctor)
+	vfi := c.MustFunc(pkgVariants, "", "VariantFromInteger")
+	vtNames := c.variantTypeNames()
+	show := func(v mv) string {
+		if p, ok := v.(*mv); !ok || p == nil {
+			return "nil"
+		}
+		t, out := m.Call(c.MustFunc(pkgVariants, "Variant", "Type"), v)
+		k, _ := t.(int64)
+		if out.kind != "ok" {
+			return "?" + out.why
+		}
+		pl, _ := m.Call(c.MustFunc(pkgVariants, "Variant", "AsObject"), v)
+		return vtNames[k] + " " + mRender(pl)
+	}
+	// assign: the caller stores 7 in x; how: "Locate" or "FindByName" (Locate when there is no entry yet)
+	assign := func(calc mv, how string) (string, string) {
+		dv, out := callM(c, m, ct, "DefaultVariables", calc)
+		col, ok := dv.(mIface)
+		if out.kind != "ok" || !ok {
+			return "", "DefaultVariables: " + out.why
+		}
+		val, _ := m.Call(vfi, int64(7))
+		var vr mv
+		if how == "FindByName" {
+			vr, out = callM(c, m, col.t, "FindByName", col.v, "x")
+			if vi, ok := vr.(mIface); out.kind != "ok" || !ok || vi.v == nil {
+				how = "Locate"
+			} else if _, isNil := vi.v.(mNilT); isNil {
+				how = "Locate"
+			}
+		}
+		if how == "Locate" {
+			vr, out = callM(c, m, col.t, "Locate", col.v, "x")
+		}
+		vi, ok := vr.(mIface)
+		if out.kind != "ok" || !ok {
+			return "", how + "(\"x\"): " + out.why
+		}
+		if _, out = callM(c, m, vi.t, "SetValue", vi.v, val); out.kind != "ok" {
+			return "", how + "(\"x\").SetValue(7): " + out.why
+		}
+		return "DefaultVariables()." + how + "(\"x\").SetValue(7)", ""
+	}
+	// observe: SetExpression's outcome, the accessors, Evaluate's outcome
+	observe := func(calc mv, text string) string {
+		m.steps = 0
+		var b strings.Builder
+		r, out := callM(c, m, ct, "SetExpression", calc, text)
+		if out.kind != "ok" {
+			return out.kind + ": SetExpression: " + out.why
+		}
+		if _, isNil := r.(mNilT); !isNil {
+			b.WriteString("SetExpression reports " + errorCode(r))
+		} else {
+			b.WriteString("SetExpression reports no error")
+		}
+		obs := c.reuseObservable(m, ct, calc)
+		if strings.HasPrefix(obs, "opaque") || strings.HasPrefix(obs, "panic") {
+			return obs
+		}
+		b.WriteString("; " + obs)
+		m.steps = 0
+		ev, out := callM(c, m, ct, "Evaluate", calc)
+		tp, ok := ev.(mTuple)
+		if out.kind != "ok" || !ok || len(tp) != 2 {
+			return out.kind + ": Evaluate: " + out.why
+		}
+		if _, isNil := tp[1].(mNilT); !isNil {
+			b.WriteString("; Evaluate() reports " + errorCode(tp[1]))
+		} else {
+			b.WriteString("; Evaluate() gives " + show(tp[0]))
+		}
+		return b.String()
+	}
+	// the caller's view of the default variables (C18: with automatic variables on a well-formed expression
+	// leaves one entry per identifier, entries and values already there are kept): names → assigned
+	type held map[string]bool
+	keyOf := func(h held) string {
+		var ks []string
+		for k, a := range h {
+			ks = append(ks, fmt.Sprintf("%s:%v", k, a))
+		}
+		sort.Strings(ks)
+		return strings.Join(ks, ",")
+	}
+	freshMemo := map[string]string{}
+	freshOf := func(text string, h held) string {
+		k := keyOf(h) + "|" + text
+		if v, ok := freshMemo[k]; ok {
+			return v
+		}
+		calc, out := m.Call(cctor)
+		v := ""
+		if out.kind != "ok" {
+			v = "opaque: NewExpressionCalculator: " + out.why
+		} else {
+			dv, out := callM(c, m, ct, "DefaultVariables", calc)
+			col, ok := dv.(mIface)
+			if out.kind != "ok" || !ok {
+				v = "opaque: DefaultVariables: " + out.why
+			}
+			var names []string
+			for name := range h {
+				names = append(names, name)
+			}
+			sort.Strings(names)
+			for _, name := range names {
+				if v != "" {
+					break
+				}
+				if h[name] {
+					if _, why := assign(calc, "Locate"); why != "" {
+						v = "opaque: " + why
+					}
+				} else if _, out := callM(c, m, col.t, "Locate", col.v, name); out.kind != "ok" {
+					v = "opaque: Locate: " + out.why
+				}
+			}
+		}
+		if v == "" {
+			v = observe(calc, text)
+		}
+		freshMemo[k] = v
+		return v
+	}
+	// malformed texts leave the variables alone
+	wellFormed := map[string]bool{"x + 1": true, "2 * 3": true, "y - 1": true, "x * y": true, "X - x": true, "y": true}
+	texts := []string{"x + 1", "2 * 3", "y - 1", "x * y", "x +", "(2"}
+	if c.Tier == "thorough" {
+		texts = append(texts, "X - x", "y", "2 3", "max(x, 2")
+	}
+	const closing = "x + 1"
+	n := 0
+	for _, t1 := range texts {
+		for _, t2 := range texts {
+			for _, t3 := range texts {
+				for at := 0; at <= 3; at++ {
+					n++
+					if n%reuseHistoryParts != part {
+						continue
+					}
+					how := []string{"Locate", "FindByName"}[(n/reuseHistoryParts)%2]
+					calc, out := m.Call(cctor)
+					if out.kind != "ok" {
+						note("", "NewExpressionCalculator: "+out.why)
+						return
+					}
+					var hist []string
+					bad, undec := "", ""
+					h := held{}
+					for i, text := range []string{t1, t2, t3, closing} {
+						if i == at {
+							did, why := assign(calc, how)
+							if why != "" {
+								undec = strings.Join(hist, ", ") + ": " + why
+								break
+							}
+							hist, h["x"] = append(hist, did), true
+						}
+						got, want := observe(calc, text), freshOf(text, h)
+						hist = append(hist, fmt.Sprintf("SetExpression(%q)", text))
+						if strings.HasPrefix(got, "opaque") || strings.HasPrefix(want, "opaque") {
+							undec = strings.Join(hist, ", ") + ": " + got + " / " + want
+							break
+						}
+						if got != want {
+							var vals []string
+							for name, a := range h {
+								vals = append(vals, name+map[bool]string{true: " = 7 stored by the caller", false: " = null"}[a])
+							}
+							sort.Strings(vals)
+							bad = fmt.Sprintf("one calculator, %s: %s; a freshly constructed calculator given %q alone, its default variables [%s] as the history left them: %s - what the instance processed before must not matter", strings.Join(hist, ", "), got, text, strings.Join(vals, ", "), want)
+							break
+						}
+						if wellFormed[text] {
+							ids, _ := refIdentifiers(lexemes(text))
+							for _, id := range ids {
+								id = strings.ToLower(id)
+								if _, have := h[id]; !have {
+									h[id] = false
+								}
+							}
+						}
+					}
+					note(bad, undec)
+				}
+			}
+		}
+	}
+}
+
 // decimalNumerals gives the number converters of the commons module (another module: opaque to the
 // machine) their meaning on plain decimal numerals, so that literals in expression texts have values;
 // every other argument stays an opaque symbol.
@@ -553,13 +822,14 @@ func reuseRealExpressions(thorough bool) []string {
 
 func init() {
 	register(&Rule{ID: "REUSE.instances", Floor: 3,
-		Doc: "every ordered pair of a pool of well-formed and malformed inputs processed by one parser / one calculator (also after a failed evaluation) / one template instance on the abstract machine: the second result (program and variable names; operations, operand order and result; rendering or error code) equals what a freshly constructed instance gives; the calculator as shipped (default functions and operations, default variables with values): an expression evaluated three times and a later expression reading the same variables give the values of a fresh calculator",
+		Doc: "every ordered pair of a pool of well-formed and malformed inputs processed by one parser / one calculator (also after a failed evaluation) / one template instance on the abstract machine: the second result (program and variable names; operations, operand order and result; rendering or error code) equals what a freshly constructed instance gives; the calculator as shipped (default functions and operations, default variables with values): an expression evaluated three times and a later expression reading the same variables give the values of a fresh calculator; histories of three expression texts (with and without a variable, malformed ones) with one assignment by the caller somewhere in between: after every SetExpression the accessors and Evaluate show what a fresh calculator shows for that text under the same variable values; a parser after a rejected text shows what a fresh parser shows",
 		Run: func(c *Ctx) []*Obligation {
 			o := newObl("REUSE.instances")
 			res := c.reuseRun()
 			o.list = append(o.list, emitSimple(c, "REUSE.instances", "parsers.ExpressionParser#reuse", c.Pos(c.MustFunc(pkgParsers, "", "NewExpressionParser").Pos()), res["parser"], "results equal a fresh instance's")...)
 			o.list = append(o.list, emitSimple(c, "REUSE.instances", "calculator.ExpressionCalculator#reuse", c.Pos(c.MustFunc(pkgCalc, "", "NewExpressionCalculator").Pos()), res["calculator"], "results equal a fresh instance's")...)
 			o.list = append(o.list, emitSimple(c, "REUSE.instances", "calculator.ExpressionCalculator#reuse-values", c.Pos(c.MustFunc(pkgCalc, "ExpressionCalculator", "Evaluate").Pos()), res["calculator-real"], "values equal a fresh instance's")...)
+			o.list = append(o.list, emitSimple(c, "REUSE.instances", "calculator.ExpressionCalculator#reuse-histories", c.Pos(c.MustFunc(pkgCalc, "ExpressionCalculator", "SetExpression").Pos()), res["calculator-histories"], "every step of every history shows what a fresh instance shows")...)
 			o.list = append(o.list, emitSimple(c, "REUSE.instances", "mustache.MustacheTemplate#reuse", c.Pos(c.MustFunc("mustache", "", "NewMustacheTemplate").Pos()), res["template"], "results equal a fresh instance's")...)
 			return o.list
 		}})
